@@ -8,7 +8,7 @@ import os, subprocess, json
 from lib import vf
 
 MANIFEST = {
- 'text': "Coq theorems over a model of the position arithmetic (text/scanner position bookkeeping of the expression lexer, token starts and lexing-error positions of a position-only lexer model, the checkExprsIn loop over the placeholders of one scalar, convertExprLineColToPos, checkString/checkOneExpression/checkIfCondition/checkRawYAMLString, errorAtExpr, globErrors, posAt/errorAt): the loop invariant (remaining string = suffix of the scalar at the accumulated offset, >= 3 bytes consumed per iteration, termination); for a one-line ASCII scalar at (line, col) every expression diagnostic whose token starts at byte offset o of the scalar text is reported at exactly (line, col + quoted + o) for any number of earlier placeholders and any filler, for lexer, parser and semantic diagnostics; glob, key and value diagnostics; the two shift corollaries; line/column bounds. Unbounded in string length, number of placeholders, offsets. Two call sites that dropped the quoted flag (matrix values, if: without ${{ }}) are refuted for the old code and proved for the code after two fix: patches. Tie: vm_compute evaluation of the same model functions on thousands of generated placements vs the positions reported by Linter.Lint, and of the lexer model vs LexExpression; oracle: reported position vs the position of a unique marker in the rendered file, plus both shift relations (k spaces / k characters of filler / k lines).",
+ 'text': "Coq theorems over a model of the position arithmetic (text/scanner position bookkeeping of the expression lexer, token starts and lexing-error positions of a position-only lexer model, the checkExprsIn loop over the placeholders of one scalar, convertExprLineColToPos, checkString/checkOneExpression/checkIfCondition/checkRawYAMLString, errorAtExpr, globErrors, posAt/errorAt): the loop invariant (remaining string = suffix of the scalar at the accumulated offset, >= 3 bytes consumed per iteration, termination); for a one-line ASCII scalar at (line, col) every expression diagnostic whose token starts at byte offset o of the scalar text is reported at exactly (line, col + quoted + o) for any number of earlier placeholders and any filler, for lexer, parser and semantic diagnostics; glob, key and value diagnostics; the two shift corollaries; line/column bounds. Unbounded in string length, number of placeholders, offsets. Two call sites that dropped the quoted flag (matrix values, if: without ${{ }}) are refuted for the old code and proved for the code after two fix: patches. Tie: vm_compute evaluation of the same model functions on thousands of generated placements vs the positions reported by Linter.Lint, and of the lexer model vs LexExpression; oracle: reported position vs the position of a unique marker in the rendered file, plus both shift relations (k spaces / k characters of filler / k lines). Recorded finding: an anchor or an explicit tag before the scalar puts the node (hypothesis scalar_pos_exact) at the anchor, so columns inside the scalar are that far left.",
  'note': "Trusted: Coq kernel; the hand-written model (correspondence-checked, not proved equal to the Go code); yaml.v3 node positions (hypothesis scalar_pos_exact, asserted on every planted scalar by parsing with gopkg.in/yaml.v3); which token the parser / semantic checker blames is an input of the model (the generator's planted offset), the lexer's tokenisation is modelled. Not claimed: exactness for multi-line, escaped or non-ASCII scalars (the model still predicts what the code reports there and is compared). Known finding: a double-quoted scalar with \\n escapes inside a placeholder can be reported on a line after the end of the file.",
  'technique': "machine-checked proof in Coq (loop invariant over string suffixes, induction over the scanned prefix) + vm_compute correspondence against Linter.Lint / LexExpression + planted-truth and shift oracle",
 }
